@@ -54,8 +54,13 @@ Pairs ==
   \cup {<<Defined, Defined>>, <<Defined, Defined \cup {19}>>, <<Defined, Priv>>, <<Priv, Priv>>, <<Priv, Defined>>,
         <<Priv \ {14}, {}>>, <<{14}, {}>>, <<{}, {}>>, <<Defined \ {14}, {0}>>}
 
+(* field-shape variants of the requested bitmap, for creators that lack what the default accounts hold *)
+ShapePairs == {<<c, w>> : c \in {{14}, {14, 2}, {14, 40}, Priv \ {2}, Priv \ {63}, Defined \ {9}, Priv} \cup {{14, (Seed * 13 + 5) % 64}},
+                         w \in {{}, Priv, Defined, {2}, {9, 40}, {63}}}
 CreateSteps ==
-  {[op |-> "create", via |-> v, by |-> "req", acc |-> p[1], login |-> "newacct", want |-> p[2]] : p \in Pairs, v \in {349, 350}}
+  {[op |-> "create", via |-> v, by |-> "req", acc |-> p[1], login |-> "newacct", want |-> p[2], shape |-> "full"] : p \in Pairs, v \in {349, 350}}
+  \cup {[op |-> "create", via |-> v, by |-> "req", acc |-> p[1], login |-> "newacct", want |-> p[2], shape |-> sh] :
+          p \in ShapePairs, v \in {349, 350}, sh \in Shapes \ {"full"}}
 
 KickSteps ==
   {[op |-> "kick", acc |-> a, tacc |-> t, ban |-> b, third |-> "none", pacc |-> {}] :
@@ -84,7 +89,7 @@ FirstSteps == (IF On("c05") THEN HandleSteps ELSE {}) \cup (IF On("c06") THEN Cr
 (* second step (model check only): the account just created creates another one *)
 ChainSteps ==
   IF Mode = "all" /\ Len(hist) = 1 /\ last.op = "create" /\ rep = "ok"
-    THEN {[op |-> "create", via |-> v, by |-> "newacct", acc |-> {}, login |-> "newacct2", want |-> w] :
+    THEN {[op |-> "create", via |-> v, by |-> "newacct", acc |-> {}, login |-> "newacct2", want |-> w, shape |-> "full"] :
             v \in {349, 350}, w \in {{}, accts["newacct"], accts["newacct"] \cup {0}, accts["newacct"] \cup {63}, Priv}}
     ELSE {}
 
